@@ -111,4 +111,8 @@ namespace ss
         if (Sched::get().active())
             Sched::get().yield(site);
     }
+
+    // std::mutex objects that live in [lo, hi) are played by one SimMutex from now on (pthread_mutex_lock /
+    // pthread_mutex_unlock as called from this program's own object files are wrapped); (nullptr, nullptr): none
+    void simulate_std_mutexes_in(const void* lo, const void* hi);
 } // namespace ss
